@@ -915,7 +915,7 @@ pub fn string_char_code_at(
     // ToIntegerOrInfinity: NaN is 0, fractions truncate; a negative position is out of range
     let position = if let Some(v) = args.first() {
         let n = interp.coerce_to_number(v)?;
-        if n.is_nan() { 0.0 } else { n.trunc() }
+        if n.is_nan() { 0.0 } else { math::trunc(n) }
     } else {
         0.0
     };
@@ -1011,7 +1011,7 @@ pub fn string_code_point_at(
     let s = interp.to_js_string(&this);
     // ToIntegerOrInfinity: NaN is 0, fractions truncate
     let index = args.first().map(|v| v.to_number()).unwrap_or(0.0);
-    let index = if index.is_nan() { 0.0 } else { index.trunc() };
+    let index = if index.is_nan() { 0.0 } else { math::trunc(index) };
 
     // A negative position is out of range
     if index < 0.0 {
